@@ -367,3 +367,6 @@ OUTSIDE = ["scaffold names and header lines starting with '#' or carrying leadin
            "coordinates are checked for ALL integers >= 1 rather than 'up to 10^12'"]
 TRUSTED = ["CrossHair/z3 incl. its model of str methods and re on symbolic strings", "integer tokens: str/int mutually inverse on integers, str(n) in [0-9]+ for n >= 0",
            "Gap rows with symbolic length built without functools.cache"]
+
+TECHNIQUE = ("CrossHair + z3 with opaque integer tokens for str/int of coordinates: parse/format round trips for unbounded coordinates; one symbolic string (<= 3-5 code points) at a time; symbolic line corruptions")
+LEVEL_TEXT = ("Coordinates are unbounded symbolic integers; names, tags and header lines are symbolic strings of arbitrary code points within a stated length.")
